@@ -1,0 +1,48 @@
+//go:build verif
+
+// Contracts for the verification machinery in /verif (comment-only; never compiled into a binary).
+// Property C08: load-aware placement keeps nodes under threshold; load estimates never drift.
+
+package loadaware
+
+//@ spec func dlt(x ResourceVector, y ResourceVector, j int) int = max0(x[j] - (y != nil ? y[j] : 0))
+
+//@ func (ResourceVector).Add [C08]
+//@   requires len(y) >= len(v) && (arr(v) != arr(y) || len(v) == 0)
+//@   ensures #sum: forall j int :: 0 <= j && j < len(v) ==> v[j] == old(v[j]) + y[j]
+//@   modifies elems(v)
+//@   loop 1 invariant 0 <= $i && $i <= len(v)
+//@   loop 1 invariant forall j int :: 0 <= j && j < len(v) ==> v[j] == old(v[j]) + (j < $i ? y[j] : 0)
+
+//@ func (ResourceVector).Sub [C08]
+//@   requires len(y) >= len(v) && (arr(v) != arr(y) || len(v) == 0)
+//@   ensures #diff: forall j int :: 0 <= j && j < len(v) ==> v[j] == old(v[j]) - y[j]
+//@   modifies elems(v)
+//@   loop 1 invariant 0 <= $i && $i <= len(v)
+//@   loop 1 invariant forall j int :: 0 <= j && j < len(v) ==> v[j] == old(v[j]) - (j < $i ? y[j] : 0)
+
+//@ func (ResourceVector).AddDelta [C08]
+//@   requires len(v) >= len(x) && (y != nil ==> len(y) >= len(x)) && (len(x) == 0 || (arr(v) != arr(x) && arr(v) != arr(y)))
+//@   ensures #delta: forall j int :: 0 <= j && j < len(x) ==> v[j] == old(v[j]) + dlt(x, y, j)
+//@   ensures #rest: forall j int :: len(x) <= j && j < len(v) ==> v[j] == old(v[j])
+//@   ensures #changed: changed <==> (exists j int :: 0 <= j && j < len(x) && dlt(x, y, j) > 0)
+//@   modifies elems(v)
+//@   loop 1 invariant 0 <= $i && $i <= len(x)
+//@   loop 1 invariant forall j int :: 0 <= j && j < len(v) ==> v[j] == old(v[j]) + (j < $i ? dlt(x, y, j) : 0)
+//@   loop 1 invariant changed <==> (exists j int :: 0 <= j && j < $i && dlt(x, y, j) > 0)
+
+//@ func (ResourceVector).SubDelta [C08]
+//@   requires len(v) >= len(x) && (y != nil ==> len(y) >= len(x)) && (len(x) == 0 || (arr(v) != arr(x) && arr(v) != arr(y)))
+//@   ensures #delta: forall j int :: 0 <= j && j < len(x) ==> v[j] == old(v[j]) - dlt(x, y, j)
+//@   ensures #rest: forall j int :: len(x) <= j && j < len(v) ==> v[j] == old(v[j])
+//@   ensures #changed: changed <==> (exists j int :: 0 <= j && j < len(x) && dlt(x, y, j) > 0)
+//@   modifies elems(v)
+//@   loop 1 invariant 0 <= $i && $i <= len(x)
+//@   loop 1 invariant forall j int :: 0 <= j && j < len(v) ==> v[j] == old(v[j]) - (j < $i ? dlt(x, y, j) : 0)
+//@   loop 1 invariant changed <==> (exists j int :: 0 <= j && j < $i && dlt(x, y, j) > 0)
+
+//@ func (ResourceVector).Empty [C08]
+//@   ensures #iff: result <==> (forall j int :: 0 <= j && j < len(v) ==> v[j] == 0)
+//@   modifies nothing
+//@   loop 1 invariant 0 <= $i && $i <= len(v)
+//@   loop 1 invariant forall j int :: 0 <= j && j < $i ==> v[j] == 0
